@@ -16,15 +16,20 @@ from .sym import eng
 
 ACCS = {
     "acc1": dict(fields=["A", "B"], launch=["launch"], fmap={"A": 0x3D0, "B": 0x3D1}, lmap={"launch": 0x3C0}, barrier=0x3C3),
-    "acc2": dict(fields=["X", "Y", "Z"], launch=["go"], fmap={"X": 0x3E0, "Y": 0x3E1, "Z": 0x3E2}, lmap={"go": 0x3F0}, barrier=0x3F3),
+    "acc2": dict(fields=["X", "Y", "Z"], launch=["launch_go"], fmap={"X": 0x3E0, "Y": 0x3E1, "Z": 0x3E2}, lmap={"launch_go": 0x3F0}, barrier=0x3F3),
+    # instruction-configured (RoCC style): <insn>.rs1/.rs2 pairs, values are funct7 codes
+    "rocc1": dict(fields=["I1.rs1", "I1.rs2", "I2.rs1", "I2.rs2"], launch=["L.rs1", "L.rs2"],
+                  fmap={"I1.rs1": 9, "I1.rs2": 9, "I2.rs1": 10, "I2.rs2": 10}, lmap={"L.rs1": 8, "L.rs2": 8}, barrier=0xBAD),
 }
 
 # palette of configurations per accelerator: tuples of value descriptors
 # value: ('a',i) arg | ('k',c) const | ('iv',) | ('iva',i) iv+arg | ('ivk',c) iv*c | ('lc',) loop-carried/outer computed
 PALETTE = {
     "acc1": [(("a", 0), ("a", 1)), (("a", 2), ("a", 1)), (("a", 0), ("a", 3)), (("iv",), ("a", 1)), (("iva", 2), ("k", 7)),
-             (("a", 0), ("ivk", 3))],
+             (("a", 0), ("ivk", 3)), (("ivk", 4), ("prev+", 1)), (("lck", 3), ("a", 1)), (("lc",), ("iva", 0))],
     "acc2": [(("a", 0), ("a", 1), ("k", 5)), (("a", 3), ("a", 1), ("k", 5)), (("iv",), ("a", 1), ("a", 2))],
+    "rocc1": [(("a", 0), ("a", 1), ("a", 2), ("a", 3)), (("a", 0), ("a", 3), ("a", 2), ("a", 3)), (("a", 2), ("a", 1), ("a", 2), ("a", 1)),
+              (("iv",), ("a", 1), ("a", 2), ("a", 3)), (("a", 0), ("a", 1), ("a", 2), ("ivk", 5))],
 }
 
 
@@ -33,6 +38,8 @@ def accel_decls():
     for name, d in ACCS.items():
         f = ", ".join(f"{k} = {v} : i32" for k, v in d["fmap"].items())
         l = ", ".join(f"{k} = {v} : i32" for k, v in d["lmap"].items())
+        if "." in f:
+            f = ", ".join(f'{k} = {v} : i32' for k, v in d["fmap"].items())
         out.append(f'  "accfg.accelerator"() <{{name = @{name}, fields = {{{f}}}, launch_fields = {{{l}}}, barrier = {d["barrier"]} : i32}}> : () -> ()')
     return "\n".join(out)
 
@@ -42,6 +49,8 @@ class Render:
         self.n = 0
         self.lines = []
         self.ivs = []  # stack of induction variable names
+        self.accs = []  # stack of loop-carried i32 values (None for loops without one)
+        self.prev = None
 
     def fresh(self, p="v"):
         self.n += 1
@@ -57,6 +66,20 @@ class Render:
         if k == "k":
             r = self.fresh("k")
             self.emit(f"{r} = arith.constant {v[1]} : i32", ind)
+            return r
+        if k == "prev+":
+            r = self.fresh("p")
+            self.emit(f"{r} = arith.addi {self.prev}, %a{v[1]} : i32", ind)
+            return r
+        if k in ("lc", "lck"):
+            carried = [a for a in self.accs if a is not None]
+            base = carried[-1] if carried else "%a2"
+            if k == "lc":
+                return base
+            c = self.fresh("k")
+            self.emit(f"{c} = arith.constant {v[1]} : i32", ind)
+            r = self.fresh("m")
+            self.emit(f"{r} = arith.muli {base}, {c} : i32", ind)
             return r
         iv = self.ivs[-1] if self.ivs else None
         if iv is None:
@@ -83,13 +106,19 @@ class Render:
         k = s[0]
         if k == "cfg":
             _, acc, pidx = s
-            vals = [self.value(v, ind) for v in PALETTE[acc][pidx]]
+            vals = []
+            for v in PALETTE[acc][pidx]:
+                self.prev = self.value(v, ind)
+                vals.append(self.prev)
             d = ACCS[acc]
             st = self.fresh("st")
             params = ", ".join(f'"{f}" = {v} : i32' for f, v in zip(d["fields"], vals))
             self.emit(f'{st} = accfg.setup "{acc}" to ({params}) : !accfg.state<"{acc}">', ind)
             tk = self.fresh("tk")
-            self.emit(f'{tk} = "accfg.launch"(%l, {st}) <{{param_names = ["{d["launch"][0]}"], accelerator = "{acc}"}}> : (i5, !accfg.state<"{acc}">) -> !accfg.token<"{acc}">', ind)
+            lv = ["%l"] if len(d["launch"]) == 1 else ["%a3", "%a2"]
+            lt = ["i5"] if len(d["launch"]) == 1 else ["i32", "i32"]
+            ln = ", ".join(f'"{x}"' for x in d["launch"])
+            self.emit(f'{tk} = "accfg.launch"({", ".join(lv)}, {st}) <{{param_names = [{ln}], accelerator = "{acc}"}}> : ({", ".join(lt)}, !accfg.state<"{acc}">) -> !accfg.token<"{acc}">', ind)
             self.emit(f'"accfg.await"({tk}) : (!accfg.token<"{acc}">) -> ()', ind)
         elif k == "for":
             _, bounds, body = s
@@ -97,8 +126,31 @@ class Render:
             lb, ub, stp = {"args": ("%lb", "%ub", "%st"), "c01": ("%c0", "%ub", "%c1"), "c0s": ("%c0", "%ub", "%st")}[bounds]
             self.emit(f"scf.for {iv} = {lb} to {ub} step {stp} {{", ind)
             self.ivs.append(iv)
+            self.accs.append(None)
             for b in body:
                 self.stmt(b, ind + 1)
+            self.accs.pop()
+            self.ivs.pop()
+            self.emit("}", ind)
+        elif k == "forc":
+            _, bounds, body = s
+            iv, acc, res = self.fresh("i"), self.fresh("acc"), self.fresh("r")
+            lb, ub, stp = {"args": ("%lb", "%ub", "%st"), "c01": ("%c0", "%ub", "%c1"), "c0s": ("%c0", "%ub", "%st")}[bounds]
+            self.emit(f"{res} = scf.for {iv} = {lb} to {ub} step {stp} iter_args({acc} = %a0) -> (i32) {{", ind)
+            self.ivs.append(iv)
+            self.accs.append(acc)
+            for b in body:
+                self.stmt(b, ind + 1)
+            c = self.fresh("ivc")
+            self.emit(f"{c} = arith.index_cast {iv} : index to i32", ind + 1)
+            n = self.fresh("n")
+            self.emit(f"{n} = arith.addi {acc}, {c} : i32", ind + 1)
+            one = self.fresh("k")
+            self.emit(f"{one} = arith.constant 1 : i32", ind + 1)
+            n2 = self.fresh("n")
+            self.emit(f"{n2} = arith.addi {n}, {one} : i32", ind + 1)
+            self.emit(f"scf.yield {n2} : i32", ind + 1)
+            self.accs.pop()
             self.ivs.pop()
             self.emit("}", ind)
         elif k == "if":
@@ -154,7 +206,7 @@ def atoms(accs, in_loop, pal_limit):
     out = []
     for acc in accs:
         for p in range(min(pal_limit, len(PALETTE[acc]))):
-            uses_iv = any(v[0] in ("iv", "iva", "ivk") for v in PALETTE[acc][p])
+            uses_iv = any(v[0] in ("iv", "iva", "ivk", "lc", "lck") for v in PALETTE[acc][p])
             if uses_iv and not in_loop:
                 continue
             out.append(("cfg", acc, p))
@@ -195,7 +247,7 @@ def has_cfg(prog):
     for s in prog:
         if s[0] == "cfg":
             return True
-        if s[0] == "for" and has_cfg(s[2]):
+        if s[0] in ("for", "forc") and has_cfg(s[2]):
             return True
         if s[0] == "if" and (has_cfg(s[2]) or (s[3] is not None and has_cfg(s[3]))):
             return True
@@ -207,7 +259,7 @@ def count_cfg(prog):
     for s in prog:
         if s[0] == "cfg":
             n += 1
-        elif s[0] == "for":
+        elif s[0] in ("for", "forc"):
             n += count_cfg(s[2])
         elif s[0] == "if":
             n += count_cfg(s[2]) + (count_cfg(s[3]) if s[3] is not None else 0)
@@ -221,9 +273,9 @@ def random_prog(rnd, size, depth, accs, pal_limit, bounds_kinds, in_loop=False):
         r = rnd.random()
         if left >= 2 and depth > 0 and r < 0.45:
             inner = rnd.randint(1, left - 1)
-            kind = rnd.choice(["for", "for", "if", "ifelse"])
-            if kind == "for":
-                out.append(("for", rnd.choice(bounds_kinds), random_prog(rnd, inner, depth - 1, accs, pal_limit, bounds_kinds, True)))
+            kind = rnd.choice(["for", "for", "forc", "if", "ifelse"])
+            if kind in ("for", "forc"):
+                out.append((kind, rnd.choice(bounds_kinds), random_prog(rnd, inner, depth - 1, accs, pal_limit, bounds_kinds, True)))
             elif kind == "if" or inner < 2:
                 out.append(("if", rnd.randint(0, 1), random_prog(rnd, inner, depth - 1, accs, pal_limit, bounds_kinds, in_loop), None))
             else:
@@ -267,7 +319,7 @@ def program_set(tier, seed, want_calls=True):
         tries += 1
         size = rnd.randint(3, 6 if quick else 8)
         accs = ["acc1"] if rnd.random() < 0.6 else ["acc1", "acc2"]
-        p = random_prog(rnd, size, 2 if quick else 3, accs, 6, ["args", "c01", "c0s"])
+        p = random_prog(rnd, size, 2 if quick else 3, accs, 9, ["args", "c01", "c0s"])
         if count_cfg(p) >= 2:
             add(p)
     return progs, n_exh
